@@ -55,6 +55,15 @@ def pyKnot (knots : Array K) (i : Int) : K :=
 def CtorDecreasing (knots : Array K) (tol : K) : Prop :=
   ∃ i, i < knots.size - 1 ∧ knots.getD (i+1) 0 - knots.getD i 0 < -tol
 
+/-- a periodic vector with fewer than the `p + k + 1` entries the comparison loop reads
+    (`if n < p + k + 1: raise ValueError` — before the fix of finding `constructor-indexerror-short-periodic`
+    the loop ran off the list: `IndexError`) -/
+def CtorShortPeriodic (p : ℕ) (knots : Array K) (k : Int) : Prop :=
+  0 ≤ k ∧ (knots.size : Int) < (p : Int) + k + 1
+
+instance (p : ℕ) (knots : Array K) (k : Int) : Decidable (CtorShortPeriodic p knots k) := by
+  unfold CtorShortPeriodic; infer_instance
+
 /-- one of the `p+k-1` compared spacings of a periodic vector mismatches by more than `tol` -/
 def CtorPerMismatch (p : ℕ) (knots : Array K) (k : Int) (tol : K) : Prop :=
   0 ≤ k ∧ ∃ i : ℕ, i < ((p:Int) + k - 1).toNat ∧
@@ -110,13 +119,14 @@ theorem ctorPerMismatch_nat (p : ℕ) (knots : Array K) (k : ℕ) (tol : K) (n :
   · rintro ⟨i, hi, h⟩
     exact ⟨by omega, i, by omega, by rw [key i hi]; exact h⟩
 
-/-- `mk?` as a chain of the four tests. -/
+/-- `mk?` as a chain of the five tests. -/
 theorem mk?_eq (p : ℕ) (knots : Array K) (periodic : Int) (tol : K)
     [Decidable (CtorPerMismatch p knots (max periodic (-1)) tol)]
     [Decidable (CtorDecreasing knots tol)] :
     Basis.mk? p knots periodic tol =
       if p < 1 then .error .value
       else if knots.size < 2 * p then .error .value
+      else if CtorShortPeriodic p knots (max periodic (-1)) then .error .value
       else if CtorPerMismatch p knots (max periodic (-1)) tol then .error .value
       else if CtorDecreasing knots tol then .error .value
       else .ok { order := p, knots := knots, periodic := max periodic (-1) } := by
@@ -128,6 +138,10 @@ theorem mk?_eq (p : ℕ) (knots : Array K) (periodic : Int) (tol : K)
   by_cases h2 : knots.size < 2 * p
   · rw [if_pos h2, if_pos h2]
   rw [if_neg h2, if_neg h2]
+  by_cases h2s : CtorShortPeriodic p knots (max periodic (-1))
+  · rw [if_pos h2s]; exact if_pos h2s
+  rw [if_neg h2s]
+  refine (if_neg h2s).trans ?_
   by_cases h3 : CtorPerMismatch p knots (max periodic (-1)) tol
   · rw [if_pos h3]
     exact if_pos ((ctorPerMismatch_iff p knots _ tol).2 h3)
@@ -140,42 +154,44 @@ theorem mk?_eq (p : ℕ) (knots : Array K) (periodic : Int) (tol : K)
 /-- **What the constructor rejects** (always with `ValueError`). -/
 theorem mk?_error_iff (p : ℕ) (knots : Array K) (periodic : Int) (tol : K) :
     Basis.mk? p knots periodic tol = .error .value ↔
-      p < 1 ∨ knots.size < 2 * p ∨ CtorPerMismatch p knots (max periodic (-1)) tol
-        ∨ CtorDecreasing knots tol := by
+      p < 1 ∨ knots.size < 2 * p ∨ CtorShortPeriodic p knots (max periodic (-1))
+        ∨ CtorPerMismatch p knots (max periodic (-1)) tol ∨ CtorDecreasing knots tol := by
   classical
   rw [mk?_eq]
-  split_ifs with h1 h2 h3 h4
+  split_ifs with h1 h2 h2s h3 h4
   · exact ⟨fun _ => Or.inl h1, fun _ => rfl⟩
   · exact ⟨fun _ => Or.inr (Or.inl h2), fun _ => rfl⟩
-  · exact ⟨fun _ => Or.inr (Or.inr (Or.inl h3)), fun _ => rfl⟩
-  · exact ⟨fun _ => Or.inr (Or.inr (Or.inr h4)), fun _ => rfl⟩
+  · exact ⟨fun _ => Or.inr (Or.inr (Or.inl h2s)), fun _ => rfl⟩
+  · exact ⟨fun _ => Or.inr (Or.inr (Or.inr (Or.inl h3))), fun _ => rfl⟩
+  · exact ⟨fun _ => Or.inr (Or.inr (Or.inr (Or.inr h4))), fun _ => rfl⟩
   · constructor
     · intro h; cases h
-    · rintro (h | h | h | h) <;> contradiction
+    · rintro (h | h | h | h | h) <;> contradiction
 
 /-- **What the constructor accepts**, and what it then returns. -/
 theorem mk?_ok_iff (p : ℕ) (knots : Array K) (periodic : Int) (tol : K) :
     Basis.mk? p knots periodic tol
         = .ok { order := p, knots := knots, periodic := max periodic (-1) } ↔
-      ¬ (p < 1 ∨ knots.size < 2 * p ∨ CtorPerMismatch p knots (max periodic (-1)) tol
-        ∨ CtorDecreasing knots tol) := by
+      ¬ (p < 1 ∨ knots.size < 2 * p ∨ CtorShortPeriodic p knots (max periodic (-1))
+        ∨ CtorPerMismatch p knots (max periodic (-1)) tol ∨ CtorDecreasing knots tol) := by
   classical
   rw [mk?_eq]
-  split_ifs with h1 h2 h3 h4
+  split_ifs with h1 h2 h2s h3 h4
   · exact ⟨fun h => (by cases h), fun h => absurd (Or.inl h1) h⟩
   · exact ⟨fun h => (by cases h), fun h => absurd (Or.inr (Or.inl h2)) h⟩
-  · exact ⟨fun h => (by cases h), fun h => absurd (Or.inr (Or.inr (Or.inl h3))) h⟩
-  · exact ⟨fun h => (by cases h), fun h => absurd (Or.inr (Or.inr (Or.inr h4))) h⟩
+  · exact ⟨fun h => (by cases h), fun h => absurd (Or.inr (Or.inr (Or.inl h2s))) h⟩
+  · exact ⟨fun h => (by cases h), fun h => absurd (Or.inr (Or.inr (Or.inr (Or.inl h3)))) h⟩
+  · exact ⟨fun h => (by cases h), fun h => absurd (Or.inr (Or.inr (Or.inr (Or.inr h4)))) h⟩
   · refine ⟨fun _ => ?_, fun _ => rfl⟩
-    rintro (h | h | h | h) <;> contradiction
+    rintro (h | h | h | h | h) <;> contradiction
 
 /-- The constructor never does anything else. -/
 theorem mk?_cases (p : ℕ) (knots : Array K) (periodic : Int) (tol : K) :
     Basis.mk? p knots periodic tol = .error .value ∨
       Basis.mk? p knots periodic tol
         = .ok { order := p, knots := knots, periodic := max periodic (-1) } := by
-  by_cases h : p < 1 ∨ knots.size < 2 * p ∨ CtorPerMismatch p knots (max periodic (-1)) tol
-      ∨ CtorDecreasing knots tol
+  by_cases h : p < 1 ∨ knots.size < 2 * p ∨ CtorShortPeriodic p knots (max periodic (-1))
+      ∨ CtorPerMismatch p knots (max periodic (-1)) tol ∨ CtorDecreasing knots tol
   · exact Or.inl ((mk?_error_iff p knots periodic tol).2 h)
   · exact Or.inr ((mk?_ok_iff p knots periodic tol).2 h)
 
@@ -202,9 +218,12 @@ theorem mk?_of_valid {b : Basis K} (hv : b.Valid) (tol : K) (htol : 0 ≤ tol) :
         rfl
     conv_rhs => rw [hb]
     rw [mk?_ok_iff]
-    rintro (h | h | h | h)
+    rintro (h | h | h | h | h)
     · have := hv.order_pos; omega
     · have := hv.size_ge; omega
+    · have h0 := h.1
+      rw [hm] at h0
+      exact absurd h0 (by decide)
     · have h0 := h.1
       rw [hm] at h0
       exact absurd h0 (by decide)
@@ -231,10 +250,14 @@ theorem gap_accepted :
     Basis.mk? 3 #[-1, 0, 1, 2, 3, 4, 5] 0 (1/10000000000 : ℚ) = .ok gapBasis := by
   have hb : gapBasis = { order := 3, knots := #[-1, 0, 1, 2, 3, 4, 5], periodic := max 0 (-1) } := rfl
   rw [hb, mk?_ok_iff]
-  rintro (h | h | h | h)
+  rintro (h | h | h | h | h)
   · omega
   · have : (#[-1, 0, 1, 2, 3, 4, 5] : Array ℚ).size = 7 := rfl
     omega
+  · have : (#[-1, 0, 1, 2, 3, 4, 5] : Array ℚ).size = 7 := rfl
+    have h2 := h.2
+    rw [this] at h2
+    norm_num at h2
   · rw [show max (0 : Int) (-1) = ((0 : ℕ) : Int) from rfl,
       ctorPerMismatch_nat 3 _ 0 _ 7 rfl (by decide)] at h
     obtain ⟨i, hi, h⟩ := h
@@ -261,10 +284,14 @@ theorem gap2_accepted :
     Basis.mk? 2 #[-1, 0, 1, 2, 7/2] 0 (1/10000000000 : ℚ) = .ok gapBasis2 := by
   have hb : gapBasis2 = { order := 2, knots := #[-1, 0, 1, 2, 7/2], periodic := max 0 (-1) } := rfl
   rw [hb, mk?_ok_iff]
-  rintro (h | h | h | h)
+  rintro (h | h | h | h | h)
   · omega
   · have : (#[-1, 0, 1, 2, 7/2] : Array ℚ).size = 5 := rfl
     omega
+  · have : (#[-1, 0, 1, 2, 7/2] : Array ℚ).size = 5 := rfl
+    have h2 := h.2
+    rw [this] at h2
+    norm_num at h2
   · rw [show max (0 : Int) (-1) = ((0 : ℕ) : Int) from rfl,
       ctorPerMismatch_nat 2 _ 0 _ 5 rfl (by decide)] at h
     obtain ⟨i, hi, h⟩ := h
